@@ -56,6 +56,9 @@ pub struct Case {
     pub field_default: bool,
     pub field_dashed: bool,
     pub lang: Lang,
+    /// `#[typeshare(<language>(type = "Xt"))]` on the first field: a type override for one language must not
+    /// change what the other languages' helper bookkeeping sees
+    pub field_override: Option<Lang>,
 }
 
 fn full_ty(c: &Case, i: usize) -> Ty {
@@ -106,6 +109,9 @@ pub fn program(c: &Case) -> File {
                 }
                 if i == 0 && c.field_dashed {
                     f.rename = Some("dashed-key".into());
+                }
+                if let (0, Some(l)) = (i, c.field_override) {
+                    f.ts_args.push(format!("{}(type = \"Xt\")", l.name()));
                 }
                 f
             })
@@ -405,7 +411,15 @@ fn gen_single(ch: &mut Chooser, max_depth: usize) -> Case {
     let field_default = position.ends_with("field") && ch.flag("serde_default");
     let field_dashed = position.ends_with("field") && ch.flag("dashed_rename");
     let lang = *ch.pick("lang", &ALL_LANGS);
-    Case { triggers: vec![trigger], nesting, position, field_default, field_dashed, lang }
+    let field_override = if position.ends_with("field") {
+        match ch.choose("type_override_for", ALL_LANGS.len() + 1) {
+            0 => None,
+            k => Some(ALL_LANGS[k - 1]),
+        }
+    } else {
+        None
+    };
+    Case { triggers: vec![trigger], nesting, position, field_default, field_dashed, lang, field_override }
 }
 
 fn gen_pair(ch: &mut Chooser) -> Case {
@@ -414,7 +428,7 @@ fn gen_pair(ch: &mut Chooser) -> Case {
     let position = *ch.pick("position", &POSITIONS[..5]);
     let nesting: Vec<&'static str> = if ch.flag("nested") { vec![NEST[1 + ch.choose("nest", NEST.len() - 1)]] } else { vec![] };
     let lang = *ch.pick("lang", &ALL_LANGS);
-    Case { triggers: vec![TRIGGERS[a], TRIGGERS[b]], nesting, position, field_default: false, field_dashed: false, lang }
+    Case { triggers: vec![TRIGGERS[a], TRIGGERS[b]], nesting, position, field_default: false, field_dashed: false, lang, field_override: None }
 }
 
 /// Multi-file mode on the real binary: k crates, each with one trigger at one position, every assignment.
@@ -467,7 +481,7 @@ fn multi_file_family(rep: &mut Report) {
         let mut mappings: Vec<(String, String)> = Vec::new();
         let mut sources = Vec::new();
         for (i, (t, p)) in j.picks.iter().enumerate() {
-            let c = Case { triggers: vec![MENU[*t]], nesting: vec![], position: POS[*p], field_default: false, field_dashed: false, lang: j.lang };
+            let c = Case { triggers: vec![MENU[*t]], nesting: vec![], position: POS[*p], field_default: false, field_dashed: false, lang: j.lang, field_override: None };
             mappings.extend(cfg_of(&c).type_mappings);
             let tag = ["A", "B", "C"][i];
             let src = render_file(&program(&c)).replace("Outer", &format!("Outer{tag}")).replace("User", &format!("User{tag}")).replace("Holder", &format!("Holder{tag}"));
@@ -580,7 +594,7 @@ pub fn run(args: &[String]) -> i32 {
             report::threads(),
             u64::MAX,
         );
-        merge(&mut rep, "single_trigger", accs, &stats, json!({"triggers": TRIGGERS, "positions": POSITIONS, "nesting_depth": format!("0..={max_depth}"), "nesting_constructors": &NEST[1..], "field_attributes": ["serde(default)", "dashed rename"], "languages": 6}));
+        merge(&mut rep, "single_trigger", accs, &stats, json!({"triggers": TRIGGERS, "positions": POSITIONS, "nesting_depth": format!("0..={max_depth}"), "nesting_constructors": &NEST[1..], "field_attributes": ["serde(default)", "dashed rename", "typeshare(<each language>(type = ..)) override"], "languages": 6}));
     }
     {
         let (accs, stats) = explore(
